@@ -87,6 +87,11 @@ def attr_documents():
               "<gallery perrow=%s widths=%s>\nFile:A.png\n</gallery>", "{|\n| colspan=%s | x\n|}", "<li value=%s>x", "{{#titleparts:a/b|%s}}",
               "<timeline>\nImageSize = width:%s\n</timeline>", "<hiero>%s</hiero>", "[[File:A.png|page=%s]]", "<font size=%s>x</font>"):
         yield t.replace("%s", h)
+    # a heading line cut by table markup, with a tag between the pieces (first met by the thorough fuzz)
+    for t in ("hiero", "ref", "math", "gallery", "b", "th", "div", "poem", "nowiki"):
+        for a, b in (("=|=", "=qux<TH ref>C="), ("== a | b ==", "== c <td> d =="), ("=|", "|="), ("= x\n|-\n| y =", "= z =")):
+            yield "{|\n|\n%s\n{|\n|}<%s> </%s>\n%s" % (a, t, t, b)
+            yield "{|\n! %s\n| <%s>q</%s>\n|}\n%s" % (a, t, t, b)
     for o1 in W.IMG_OPTS:
         for o2 in W.IMG_OPTS:
             yield "[[File:Pic.png|%s|%s|cap]] [[Image:a.jpg|%s]]" % (o1, o2, o1)
